@@ -17,7 +17,7 @@ RULE = ('6 inner blocks (with/without preamble) x constraint menu (AtMostKInARow
         'states = sequences compared; non-trivial = the two placements of the pair have different reference sets.')
 ASSUMPTIONS = ['reference model vt/ref.py (documented windows; A3/A4 exclusions of DESIGN.md section 3)']
 BUDGET_S = {'quick': 90, 'thorough': 400}
-REF_LIMIT = {'quick': 1200, 'thorough': 20000}
+REF_LIMIT = {'quick': 1200, 'thorough': 2500}
 
 
 def menu(tier):
@@ -43,7 +43,13 @@ def items(tier, seed):
     out = []
     for factors, cr, size, pre in inners:
         names = [f['name'] for f in factors]
-        for con in menu(tier):
+        cons_here = list(menu(tier))
+        if 'TA' in names:
+            # the same classes on the Transition factor itself (its variables are laid out per factor, not per trial)
+            cons_here += [{'c': 'AtMostKInARow', 'k': 1, 'factor': 'TA', 'level': 'ta0'}, {'c': 'ExactlyK', 'k': 1, 'factor': 'TA', 'level': 'ta0'},
+                          {'c': 'AtLeastKInARow', 'k': 2, 'factor': 'TA', 'level': 'ta1'}, {'c': 'Pin', 'index': -1, 'factor': 'TA', 'level': 'ta0'},
+                          {'c': 'Pin', 'index': 1, 'factor': 'TA', 'level': 'ta1'}]
+        for con in cons_here:
             combs = []
             for reps in (2, 3):
                 if size * reps + pre <= 9:
